@@ -26,8 +26,9 @@ start times, any clock rate) **and every arithmetic** (no theorem inspects the f
   alternating patterns; `1 ≤ repetition_interval ≤ MAX_REPETITION_INTERVAL + 1`;
 * `group_by_interval` yields non-empty groups that partition its input in order; rhythm groups
   partition the notes, pattern groups partition the rhythm groups, exactly the notes carry rhythm data;
-* the evaluator-time lookups (`previous_note`, `next_note`, `previous_mono`, the colour window)
-  stay in range.
+* the evaluator-time lookups (`previous_note`, `next_note`, `previous_mono`, `previous_color_change`,
+  `next_color_change`, the colour window) stay in range; the colour data of an object points at the
+  streak that contains it.
 -/
 
 namespace Rosu.C05e
@@ -114,6 +115,28 @@ theorem taiko_colour_structure (st : Store T) (h : st.WF) :
     hi.alts_nonempty, hi.alts_equal_runs, hi.reps_partition, hi.reps_nonempty, hi.intervals_len,
     hi.intervals_range, hi.colour_len⟩
 
+/-- The colour data `process_and_assign` leaves in object `p` points at the mono streak that contains
+`p`, at `p`'s position (`mono_streak.hit_objects[pos] = p`), through existing parent links — what
+`first_hit_object()`, `hit_objects.iter().position(..)` and the `parent` upgrades of the evaluators
+rely on. -/
+theorem taiko_colour_data_points_to_own_streak (A : Arith T) (clock : T) (objs : List (Obj T))
+    (pre : Pre T) (h : preprocess A clock objs = some pre) (p : Nat) (c : ColourOf)
+    (hc : pre.colour[p]? = some c) :
+    ∃ rep alt mono, pre.reps[c.1]? = some rep ∧ rep[c.2.1]? = some alt ∧ alt[c.2.2.1]? = some mono ∧
+      mono[c.2.2.2]? = some p := by
+  obtain ⟨pre', h', hi⟩ := preprocess_spec A clock objs
+  rw [h] at h'; cases h'
+  exact hi.colour.colour_points p c hc
+
+/-- The evaluator-time lookups through the colour data (`previous_note`, `next_note`, `previous_mono`,
+`previous_color_change`, `next_color_change` for every object) never fail on what colour
+preprocessing produced. -/
+theorem taiko_evaluator_lookups_total (st : Store T) (h : st.WF) (monos : List Mono) (alts : List Alt)
+    (reps : List Rep) (ivs : List Nat) (colour : List ColourOf)
+    (hci : ColourInv st monos alts reps ivs colour) :
+    ∃ ls, lookupsOf st reps colour = some ls ∧ ls.length = st.objects.length :=
+  lookupsOf_spec st h monos alts reps ivs colour hci
+
 /-- The inner `while is_coupled` loop never pops an empty deque and always leaves the two elements
 that `data.drain(..2)` takes. -/
 theorem taiko_drain_two_safe (st : Store T) (fuel : Nat) (data : List Alt) (cur : Rep)
@@ -147,6 +170,26 @@ theorem taiko_rhythm_structure (A : Arith T) (st : Store T) (hn : ∀ p ∈ st.n
       pgi.length = pgs.length ∧ pgr.length = pgs.length ∧ rh.length = st.objects.length ∧
       ∀ p (h : p < rh.length), rh[p].isSome = true ↔ p ∈ st.notes :=
   rhythmOf_full A st hn
+
+/-! ### The hypotheses of the theorems above are satisfiable (and satisfied by what the code builds) -/
+
+/-- a well-formed store with three difficulty objects exists (any built store is one) -/
+example : ∃ st : Store Int, st.WF ∧ st.objects.length = 3 := by
+  obtain ⟨st, _, hwf, hlen, _⟩ := build_spec intArith 1
+    [⟨0, .centre⟩, ⟨100, .rim⟩, ⟨200, .nonhit⟩, ⟨300, .centre⟩, ⟨400, .centre⟩]
+  exact ⟨st, hwf, by simpa using hlen⟩
+
+/-- `ColourInv` holds for the colour data of every well-formed store -/
+example (st : Store Int) (h : st.WF) : ∃ monos alts reps ivs colour, ColourInv st monos alts reps ivs colour := by
+  obtain ⟨monos, alts, reps, ivs, colour, _, hi⟩ := colourOf_spec st h
+  exact ⟨monos, alts, reps, ivs, colour, hi⟩
+
+/-- hypotheses of `taiko_drain_two_safe` / `taiko_repetition_interval_bounded` -/
+example : ∃ (st : Store Int) (data : List Alt), (∀ a ∈ data, AltOK st a) ∧ 3 ≤ data.length :=
+  ⟨{}, [[[]], [[]], [[]]], by simp [AltOK], by simp⟩
+
+example : ∃ (reps : List Rep) (k : Nat), (∀ r ∈ reps, ∀ x ∈ r, x ≠ []) ∧ k < reps.length :=
+  ⟨[[[[0]]]], 0, by simp, by simp⟩
 
 /-! ### Degenerate maps (instances of the theorems above, evaluated) -/
 
